@@ -331,7 +331,8 @@ func gen(a hx.Args) {
 		bmins := []int64{0, piv, piv + 1}
 		umaxs := []string{"nil", "miss", hx.Itoa(piv - 1), hx.Itoa(piv), hx.Itoa(cm + 1)}
 		umins := []string{"nil", hx.Itoa(piv - 1), hx.Itoa(piv), hx.Itoa(piv + 1)}
-		if a.Tier != "thorough" { // quick: a seeded third of the grid
+		pinned := kn == "findcoord2" || kn == "offsetfetch2" // the two kinds with internal pins: their whole grid in both tiers
+		if a.Tier != "thorough" && !pinned { // quick: a seeded fifth of the grid
 			for _, bmax := range bmaxs {
 				for _, bmin := range bmins {
 					for _, umax := range umaxs {
